@@ -271,7 +271,7 @@ value given here has been defined by the International Astronomical Union (IAU).
 #. `Wikipedia <https://en.wikipedia.org/wiki/Zero_point_(photometry)#Bolometric_magnitude_zero_point>`__.
 """
 
-sun_luminosity = Quantity(3.827e26 * units.watt, display_symbol="L_Sun", display_latex="L_\\odot")
+sun_luminosity = Quantity(3.828e26 * units.watt, display_symbol="L_Sun", display_latex="L_\\odot")
 """
 :symbols:`luminosity` of the Sun.
 """
